@@ -26,16 +26,27 @@ N    == Len(h) + 1
 Step(i, S) == h' = Append(h, i) /\ CCommit(S)
 
 Idle == {g \in G : ~Busy(CCur, g)}
+\* progress handlers that take time are generated only by bags naming the kind "slow"; while one runs
+\* the router says nothing (a running handler holds back the client's receive loop: not modelled)
+SlowBag == \E n \in DOMAIN KindBag : KindBag[n] = "slow"
+Quiet   == \A g \in DOMAIN ops : ops[g].busy <= cnow
 
 GApi ==
   \E g \in R(Idle) : \E kind \in W(<<"sub", "sub", "reg", "reg", "pub", "call", "call", "call", "unsub", "unreg">>) :
-  \E name \in R(IF kind \in {"sub", "unsub", "pub"} THEN Topics ELSE Procs), prog \in R(BOOLEAN) :
-    LET p == kind = "call" /\ prog IN
-    Step([In0 EXCEPT !.op = "api", !.g = g, !.kind = kind, !.name = name, !.prog = p], ApiFx(CCur, g, kind, name, p))
+  \E name \in R(IF kind \in {"sub", "unsub", "pub"} THEN Topics ELSE Procs), prog \in R(BOOLEAN), slow \in (IF SlowBag THEN W(<<0, 50, 50>>) ELSE {0}) :
+    LET p == kind = "call" /\ prog
+        sl == IF p THEN slow ELSE 0 IN
+    Step([In0 EXCEPT !.op = "api", !.g = g, !.kind = kind, !.name = name, !.prog = p, !.tmo = sl], ApiFx(CCur, g, kind, name, p, sl))
 
 \* ids the router may put into a reply: those somebody waits for, finished ones, unknown ones
 ReplyKinds(kind) == <<Expected(kind), Expected(kind), Expected(kind), "ERROR", "PUBLISHED", "RESULT", "SUBSCRIBED">>
+\* let the running progress handler finish
+GWait == LET t == CHOOSE x \in {ops[g].busy : g \in {y \in DOMAIN ops : ops[y].busy > cnow}} : TRUE IN
+         \E tie \in R({"reply", "timer"}) :
+           Step([In0 EXCEPT !.op = "advance", !.ms = t - cnow], CAdvanceFx(CCur, t - cnow, tie))
+
 GReply ==
+  IF ~Quiet THEN GWait ELSE
   IF Active(CCur) = {} \/ ~conn THEN GApi
   ELSE \E g \in R(Active(CCur)) : \E which \in R(1..8) : \E old \in R(1..(nreq + 1)) :
          LET op == ops[g]
@@ -56,6 +67,7 @@ GSched ==
                            ScheduleFx(CCur, op.req, mk, 100 + N, ms))
 
 Deadlines == {ops[g].dl - cnow : g \in {x \in Active(CCur) : ops[x].dl > cnow}}
+             \cup {ops[g].busy - cnow : g \in {x \in Active(CCur) : ops[x].busy > cnow}}
              \cup {invs[i].dl - cnow : i \in {x \in Running(CCur) : invs[x].dl > cnow}}
              \cup (IF closing > cnow THEN {closing - cnow} ELSE {})
              \cup {sched[i].at - cnow : i \in {j \in DOMAIN sched : sched[j].at > cnow}}
@@ -132,6 +144,7 @@ GenNext ==
        CASE kind = "api" -> GApi [] kind = "reply" -> GReply [] kind = "sched" -> GSched [] kind = "adv" -> GAdvance
          [] kind = "cancel" -> GCancel [] kind = "inv" -> GInv [] kind = "intr" -> GIntr [] kind = "release" -> GRelease
          [] kind = "event" -> GEvent [] kind = "hostile" -> GHostile [] kind = "disc" -> GDisconnect [] kind = "close" -> GClose [] kind = "dupinv" -> GDupInv
+         [] kind = "slow" -> GCancel
          [] OTHER -> GAdvance
 
 GenInit == h = <<>> /\ \E t \in {1000, 200} : CInitWith(t)
